@@ -39,10 +39,10 @@ ASSUMPTIONS = [
     "per function family, each first step in a freshly forked process (one shard per X); only the last call is judged, with the tolerance of its own dtype",
     "lie_bracket(a, b) is judged as Jac(a) b - Jac(b) a (formula in its docstring, positional call); lie_bracket in bspline mode is not judged",
 ]
-# vacuity guard: about half of what the quick tier measures (77 707 non-trivial cases, 52 311 outcomes); thorough is a superset
-MIN_NONTRIVIAL = {"quick": 38000, "thorough": 60000}
-MIN_OUTCOMES = {"quick": 26000, "thorough": 40000}
-MIN_SUB_TRACES = {"fd1": 3800, "fd2": 3100, "bspline": 700, "keys": 6300, "jac": 2900, "det": 2100, "div": 2900, "curl": 2900, "lie": 3300, "sd": 21000, "seq": 400}
+# vacuity guard: about half of what the quick tier measures (43 738 non-trivial cases, 34 537 outcomes); thorough is a superset
+MIN_NONTRIVIAL = {"quick": 21000, "thorough": 60000}
+MIN_OUTCOMES = {"quick": 17000, "thorough": 40000}
+MIN_SUB_TRACES = {"fd1": 2300, "fd2": 1900, "bspline": 450, "keys": 4500, "jac": 1800, "det": 1100, "div": 1800, "curl": 1800, "lie": 2000, "sd": 8500, "seq": 360}
 
 EPS = {"f32": 2.0 ** -23, "f64": 2.0 ** -52}
 DT = {"f32": torch.float32, "f64": torch.float64}
@@ -72,7 +72,7 @@ def shapes(D: int, tier: str):
         return [(a, b) for a in (5, 6, 7) for b in (5, 6, 7)]
     base = [(5, 6, 7), (7, 5, 6), (6, 7, 5), (5, 5, 5), (7, 7, 6), (6, 5, 5), (5, 7, 7), (6, 6, 6)]
     if tier == "quick":
-        return base[:3]
+        return base[:2]
     return base + [(8, 5, 9), (5, 9, 6)]
 
 
@@ -822,6 +822,9 @@ def cases_of(shard):
     # complete product on "full" shapes; on the remaining shapes of the quick tier the two extreme elements of the product
     combos = list(itertools.product(sps, (1, 2), dts)) if full else [("ND", 2, "f64"), ("none", 1, "f32")]
     combos_packed = list(itertools.product(sps, dts)) if full else [("ND", "f64"), ("none", "f32")]
+    if full and tier == "quick" and D == 3:
+        combos = [c for c in combos if c[2] == "f64" or c[1] == 2]
+        combos_packed = [c for c in combos_packed if c[1] == "f64" or c[0] in ("vec", "none")]
     out = []
     if kind == "seq":
         return seq_cases(shard)
@@ -941,9 +944,13 @@ def shards(tier: str, seed: int):
         for mode in ALL_MODES:
             for shape in shp:
                 for part in PARTS:
+                    if tier == "quick" and mode == "default" and part in ("fd", "extra") and tuple(shape) not in fs:
+                        continue  # mode=None is forward_central_backward: quick runs its fd / image parts on the full shapes only
                     out.append({"tier": tier, "seed": seed, "D": D, "mode": mode, "shape": list(shape), "kind": "main", "part": part, "full": tuple(shape) in fs})
             kshapes = (shp[1:3] if D == 2 else shp[:1]) if tier == "quick" else shp[:3]
             nparts = 2 if D == 2 else 6
+            if tier == "quick" and D == 3 and mode in ("forward", "backward", "prewitt", "forward_central_backward"):
+                kshapes = []  # key parsing / grouping does not depend on the stencil: quick keeps central, sobel, default, bspline in 3-D
             for shape in kshapes:
                 for k in range(nparts):
                     out.append({"tier": tier, "seed": seed, "D": D, "mode": mode, "shape": list(shape), "kind": "keys", "part": k, "nparts": nparts})
